@@ -14,9 +14,9 @@ func checkC07(r *Run) {
 	r.Rule("R1", "one predicate: every branch decision of the prefix/if/else-if/infix evaluators that depends on an evaluated template value obtains it through the truthiness predicate (licensed: the nil-operand dispatch and the operand type switch of the infix evaluator)", 1)
 	r.Rule("R2", "falsy set of the predicate: nil, false, \"\", empty template.HTML, nil pointer -- nothing more, nothing less; comparisons only in single-type arms", 1)
 	r.Rule("R3", "branch selection: main block only on the truthy edge and returned at once; else-ifs visited by one ascending range, condition and block of the same element, first truthy returns; else block only after the loop", 1)
-	truthyUseRule(r, "R1")
+	truthyUseRuleSSA(r, "R1")
 	falsySetRuleSSA(r, "R2")
-	branchSelectionRule(r, "R3")
+	ifBranchRuleSSA(r, "R3")
 }
 
 // valueVars returns the variables of f that hold the result of evaluating a
